@@ -5,7 +5,7 @@ from common import R, Rmat, cfl, fl, max_rel_err, ModelError
 
 from common import wiring_pre_build as pre_build  # noqa: E402,F401
 
-LEAN_MODULES = ["PyomaVerif.Props.C13", "PyomaVerif.Props.C13Parseval", "PyomaVerif.Mutants.C13", "PyomaVerif.Props.WiringRun"]
+LEAN_MODULES = ["PyomaVerif.Props.C13", "PyomaVerif.Props.C13Parseval", "PyomaVerif.Props.C13Phase", "PyomaVerif.Mutants.C13", "PyomaVerif.Props.WiringRun"]
 THEOREMS = [
     # call-site wiring of the class layer, regenerated from /repo on every run (translate_wiring.py)
     "PV.WiringRun.C13_run_spectral",
@@ -58,6 +58,41 @@ THEOREMS = [
     "PV.C13.Mutants.opp_conj_gives_conjugate_phase",
     "PV.C13.Mutants.swap_violates_pairing",
     "PV.C13.Mutants.short_grid_violates",
+    # Props/C13Phase.lean: phase convention of the 'cor' chain, gain-and-delay under the Hann window, mean removal
+    # immaterial on lines >= 2, twiddle side conditions for every n
+    "PV.C13.csd_gain_delay_padded",
+    "PV.C13.irfft_gain_delay",
+    "PV.C13.corFromPxy_gain_delay",
+    "PV.C13.sd_cor_gain_delay",
+    "PV.C13.sd_cor_gain_delay_flat",
+    "PV.C13.sd_per_swap_conj",
+    "PV.C13.corPxy_swap_conj",
+    "PV.C13.welchX_delay_window",
+    "PV.C13.sd_per_gain_delay_kernel",
+    "PV.C13.sd_per_gain_delay",
+    "PV.C13.sd_per_welch_no_detrend",
+    "PV.C13.sd_per_welch_no_detrend_roots_of_unity",
+    "PV.C13.twR_primitive",
+    "PV.C13.sd_sinusoid_roots_of_unity",
+    "PV.C13.sd_sinusoid_ratio_roots_of_unity",
+    "PV.C13.cor_hyps_roots_of_unity",
+    "PV.C13.tw4_half12",
+    "PV.C13.tw4_period12",
+    "PV.C13.exC_delay",
+    "PV.C13.exC_tail",
+    "PV.C13.exY_delay",
+    "PV.C13.exP_delay",
+    "PV.C13.exP_adj",
+    "PV.C13.Mutants.cor_conj_violates_gain_delay",
+    "PV.C13.Mutants.cor_conj_violates_gain_delay_flat",
+    "PV.C13.Mutants.cor_conj_gives_conjugate_phase",
+    "PV.C13.Mutants.cor_swap_violates_gain_delay",
+    "PV.C13.Mutants.cor_swap_violates_gain_delay_flat",
+    "PV.C13.Mutants.cor_swap_gives_conjugate_phase",
+    "PV.C13.Mutants.cor_rev_violates_gain_delay",
+    "PV.C13.Mutants.cor_conj_opposite_phase",
+    "PV.C13.Mutants.opp_conj_violates_hann_gain_delay",
+    "PV.C13.Mutants.raw_differs_below_line_2",
 ]
 RULE = (
     "correspondence: fdd.SD_est ('per' and 'cor') vs the Lean model Spectral.sdEstPer/sdEstCor executed with Float "
@@ -65,7 +100,8 @@ RULE = (
     "nxseg 4..64 all parities, plus 128..512 quick / ..4096 thorough, overlaps incl. non-integer nxseg*pov, random dt), "
     "max |diff| <= 1e-9 * max |entry|, frequencies 1e-12; malformed stream (length mismatch, pov >= 1) must raise in both. "
     "oracle: the property's battery on the real code (independent numpy Welch lines >= 2, grid, pairing, bilinearity, "
-    "g^2, Hermitian PSD, Parseval (mean square 5 %; exact window-weighted segment form of sd_per_parseval 1e-10), gain-and-delay, grid-line sinusoids; class layer: result.freq/Sy of FDD and pLSCF through SingleSetup in "
+    "g^2, Hermitian PSD, Parseval (mean square 5 %; exact window-weighted segment form of sd_per_parseval 1e-10), gain-and-delay (broadband 5 % / 30 %; "
+    "EXACT 1e-9 on records satisfying the hypotheses of sd_cor_gain_delay -- lag-domain form, any exponential lag window -- and sd_per_gain_delay), grid-line sinusoids; class layer: result.freq/Sy of FDD and pLSCF through SingleSetup in "
     "multi-step sessions -- run twice, re-added after decimate_data, re-used on a second setup with another fs, two objects, amplitudes 1e-8..1e8 -- "
     "grid of the record handed over and Welch equivalence). distinct = distinct (kind, method, nxseg, pov, shapes)"
 )
@@ -79,6 +115,10 @@ ASSUMPTIONS = [
     "gain-and-delay oracle: the DC line is compared only for delays <= nxseg/512 (segment-mean removal leaves untapered weights there; "
     "bias 2d/n plus sampling error reaches 4-6 % at d = nxseg/64 for any feasible record length); all other lines at 5 %",
     "their exact counterparts (csd_gain_delay for segment-periodic pairs with a flat window, dyad decomposition, sd_sinusoid, sd_per_parseval / sd_per_welch_form) are the theorems",
+    "exact gain-and-delay for the configurations SD_est uses (Props/C13Phase.lean): 'cor' needs even nxseg, the delay inside the zero padding of the first stage "
+    "(half-segment tails at the half-segment mean) and holds against the auto estimate with the lag window ADVANCED by the delay (the exponential window is not "
+    "shift invariant: the plain ratio is exact for a flat lag window only); 'per' (Hann) needs segment-periodic pairs and empty adjacent lines, otherwise the exact "
+    "statement is the three-term-kernel form sd_per_gain_delay_kernel",
 ]
 
 POVS8 = [0.0, 0.125, 0.25, 0.375, 0.5, 0.625, 0.75, 0.875]
@@ -419,6 +459,58 @@ def check_sinusoid(p, stats=None):
     return out
 
 
+def check_gain_delay_exact(p, stats=None):
+    """The EXACT gain-and-delay statements (Lean: sd_cor_gain_delay, sd_per_gain_delay) on records built to satisfy their
+    hypotheses, run on the real code.
+    'cor' (even nxseg): every half-segment of x ends in d samples at the half-segment mean, y = gain * (circular delay by d
+    of each half-segment).  Then S[x,y] = gain tw(k d) S_d[x,x], S_d computed with the lag window advanced by d; in the lag
+    domain and without knowing the window beyond its being exponential (w[t]/w[t-d] constant for t >= d):
+    irfft(S[x,y])[t] = c * irfft(S[x,x])[t-d] for d <= t < nxseg with ONE constant c, c/gain > 0.  conj(Pxy), swapped csd
+    arguments or a reversed Rxy mirror the lag axis and break this at O(1).
+    'per': x = offset + sinusoids on the EVEN grid lines (nxseg-periodic, so a global delay is circular in every segment and
+    the lines adjacent to an even line are empty), y = gain * x(t - d): at every even line S[x,y]/S[x,x] = gain exp(-2 pi i k d/n)
+    for ANY delay 0 <= d < nxseg."""
+    sd = _sd()
+    out = []
+    g = np.random.default_rng(p["npseed"])
+    n, pov, dt, d, gain, nseg, dc = p["nxseg"], p["pov"], p["dt"], p["delay"], p["gain"], p["nseg"], p["delay_cor"]
+    h = n // 2
+    head = g.standard_normal((2 * nseg, h - dc)) + g.uniform(-2, 2, size=(2 * nseg, 1))
+    seg = np.concatenate([head, np.repeat(head.mean(axis=1, keepdims=True), dc, axis=1)], axis=1)
+    ex = g.standard_normal((2, min(p["extra"], h - 1)))  # an incomplete trailing half-segment is ignored by the estimator
+    Y = np.vstack([np.concatenate([seg.reshape(-1), ex[0]]), np.concatenate([gain * np.roll(seg, dc, axis=1).reshape(-1), ex[1]])])
+    _, S = sd(Y, Y, dt, n, "cor", pov)
+    if S.shape == (2, 2, h + 1):
+        Rxx = np.fft.irfft(S[0, 0])
+        Rxy = np.fft.irfft(S[0, 1])
+        a, b = Rxx[: n - dc], Rxy[dc:]
+        c = float(a @ b / (a @ a))
+        res = float(np.abs(b - c * a).max() / np.abs(Rxy).max())
+        if stats is not None:
+            stats["gdx_cor"] = max(stats.get("gdx_cor", 0.0), res / 1e-9)
+        if res > 1e-9 or not c / gain > 0:
+            out.append(("gain-delay-exact-cor", f"cor: lag-domain cross estimate is not one positive multiple of gain * (auto estimate delayed by {dc} lags) "
+                        f"on a half-segment-wise exact gain-and-delay pair (residual {res:.2e}, c/gain {c / gain:.3g}): conj(X)Y convention broken", res, 1e-9))
+    ks = np.arange(2, n // 2 - 1, 2)
+    N = p["Ndat_per"]
+    t = np.arange(N + d)
+    amp = 10.0 ** g.uniform(-0.5, 0.5, size=len(ks))
+    ph = g.uniform(-np.pi, np.pi, size=len(ks))
+    spec = np.zeros(h + 1, complex)
+    spec[ks] = amp * np.exp(1j * ph) * (n / 2)  # one period of sum_k amp_k cos(2 pi k t/n + ph_k), even lines only
+    xx = np.fft.irfft(spec, n)[t % n] + g.uniform(-3, 3)
+    Yp = np.vstack([xx[d:], gain * xx[:N]])
+    _, S = sd(Yp, Yp, dt, n, "per", pov)
+    if S.shape == (2, 2, h + 1) and len(ks):
+        err = float(np.abs(S[0, 1, ks] / S[0, 0, ks] - gain * np.exp(-2j * np.pi * ks * d / n)).max() / abs(gain))
+        if stats is not None:
+            stats["gdx_per"] = max(stats.get("gdx_per", 0.0), err / 1e-9)
+        if err > 1e-9:
+            out.append(("gain-delay-exact-per", f"per: segment-periodic pair with empty adjacent lines, delay {d}: cross/auto differs from gain*exp(-2 pi i k d/n) "
+                        f"at an even line (rel {err:.2e})", err, 1e-9))
+    return out
+
+
 def check_classlayer(p, stats=None):
     """The property observed where users see it (result.freq / result.Sy of FDD and pLSCF run through SingleSetup):
     one line every fs/nxseg up to Nyquist, fs being the sampling rate of the record the algorithm was handed, and
@@ -526,7 +618,8 @@ def check_classlayer(p, stats=None):
     return out
 
 
-CHECKS = {"basic": check_basic, "psd": check_psd_parseval, "gaindelay": check_gain_delay, "sinusoid": check_sinusoid, "classlayer": check_classlayer}
+CHECKS = {"basic": check_basic, "psd": check_psd_parseval, "gaindelay": check_gain_delay, "sinusoid": check_sinusoid, "classlayer": check_classlayer,
+          "gdexact": check_gain_delay_exact}
 
 
 def _run_case(ctx, p):
@@ -656,6 +749,16 @@ def oracle(ctx, scale):
         _run_case(ctx, p)
     # (5) the class layer: FDD / pLSCF results through SingleSetup, multi-step sessions
     _oracle_classlayer(ctx, scale)
+    # (6) exact gain-and-delay on records satisfying the hypotheses of sd_cor_gain_delay / sd_per_gain_delay
+    for _ in range(ctx.n(20, 300) * scale):
+        n = _nx(ctx)
+        if n % 2:
+            n += 1
+        p = {"kind": "gdexact", "npseed": seed(), "nxseg": n, "pov": _pick_pov(rng, n), "dt": rng.choice(dts),
+             "delay": rng.randint(0, n - 1), "delay_cor": rng.randint(1, max(1, n // 8)),
+             "gain": rng.choice([-1, 1]) * 10 ** rng.uniform(-1, 1), "nseg": rng.randint(1, 4), "extra": rng.randint(0, 5),
+             "Ndat_per": n * rng.randint(2, 5) + rng.randint(0, n - 1)}
+        _run_case(ctx, p)
 
 
 def _oracle_classlayer(ctx, scale):
